@@ -434,7 +434,7 @@ def degenerate_bounded_instance():
         if inp['seed'] % 4 == 0 and (model.startswith('gmm') or model in ('vmfmm', 'cwmm')) and data != 'one-hot':
             # positive class masses that are not normalised over the classes (the saliency-weighted weight update renormalises)
             init = init * rng.uniform(0.5, 2.0, size=(F, 1, init.shape[-1]))
-        if inp['seed'] % 5 == 0 and model in ('cacgmm', 'cwmm', 'vmfmm', 'gmm-full', 'gmm-diagonal', 'gmm-spherical') and data == 'generic':
+        if inp['seed'] % 3 == 0 and model in ('cacgmm', 'cwmm', 'vmfmm', 'gmm-full', 'gmm-diagonal', 'gmm-spherical') and data in ('generic', 'one-hot', 'offset'):
             # the start drawn by the library itself (num_classes instead of an initialization), one iteration: the first M-step's weights
             np.random.seed(inp['seed'])
             kw_ = {'covariance_type': model[4:]} if model.startswith('gmm') else {}
@@ -444,6 +444,11 @@ def degenerate_bounded_instance():
             return res
         if model == 'cacgmm-mask':
             # a source-activity mask (every class active somewhere, at least one class active everywhere)
+            if data != 'generic':
+                # (rank-deficient classes next to a mask reach the known C01 finding -- an inactive class whose density exceeds every
+                # active one by more than 745 nats zeroes the frame; the masked scenes of this family use data in general position)
+                y = rng.normal(size=(F, 12, D)) + 1j * rng.normal(size=(F, 12, D))
+                init = rng.dirichlet(np.ones(K), size=(F, 12)).transpose(0, 2, 1).copy()
             act = rng.rand(F, K, init.shape[-1]) < 0.7
             act[:, 0, :] = True
             act[:, :, :K] = True
